@@ -85,19 +85,33 @@ def parseJson (s : String) : Option JVal :=
   | some (v, r) => if (skipWs r).isEmpty then some v else none
   | none => none
 
-/-- some object has two keys equal up to case (outside the modelled decoder behaviour) -/
-partial def hasDupKeys : JVal → Bool
-  | .arr xs => xs.any hasDupKeys
-  | .obj kvs =>
-    let ks := kvs.map fun kv => lowerAscii kv.1
-    !(nodupB ks) || kvs.any fun kv => hasDupKeys kv.2
+/-- shape signature of a value (what the typed decoders look at first) -/
+partial def sig : JVal → String
+  | .null => "n"
+  | .bool _ => "b"
+  | .int n => if int64Min ≤ n ∧ n ≤ int64Max then "i" else "I"
+  | .other => "f"
+  | .str _ => "s"
+  | .arr xs => "[" ++ ",".intercalate ((xs.map sig).foldl (fun acc x => insertSortedS x acc) []) ++ "]"
+  | .obj _ => "o"
+where insertSortedS (x : String) : List String → List String
+  | [] => [x]
+  | y :: ys => if x < y then x :: y :: ys else if x == y then y :: ys else y :: insertSortedS x ys
+
+/-- duplicate keys are modelled (rules R5–R7 in Model.lean): nothing is skipped for them any more -/
+def hasDupKeys (_ : JVal) : Bool := false
+
+/-- the file uses a duplicated key somewhere (tag for the histogram) -/
+partial def usesDupKeys : JVal → Bool
+  | .arr xs => xs.any usesDupKeys
+  | .obj kvs => !(nodupB (kvs.map fun kv => lowerAscii kv.1)) || kvs.any fun kv => usesDupKeys kv.2
   | _ => false
 
 /-- a `null` element inside an array three levels below "Config" (the former panic of cluster_table) -/
 def ctHasNullBackend (j : JVal) : Bool :=
   match j with
   | .obj kvs =>
-    match field kvs "Config" with
+    match (field kvs "Config").getLast?.getD .null with
     | .obj cs => cs.any fun c =>
         match c.2 with
         | .obj ss => ss.any fun s => match s.2 with
@@ -206,7 +220,7 @@ def runSingle (kind body impl : String) : Ans :=
         else if doc && !impl.startsWith "ok" then "FAIL:doc-rejected-" ++ kind
         else if kind == "host" && tags.contains "empty-tag" then "skip"
         else "ok"
-      let tags := [kind] ++ tags ++ [if m.startsWith "ok" then "accept" else "reject"] ++
+      let tags := [kind] ++ tags ++ (if usesDupKeys j then ["dup-key"] else []) ++ [if m.startsWith "ok" then "accept" else "reject"] ++
         (if doc then ["documented"] else []) ++
         (if m.startsWith "ok" || m == "err:check" then ["nt"] else [])
       { model := m, verdict := verdict, tags := tags }
@@ -276,16 +290,78 @@ def runAll (body impl : String) : Ans :=
           else "ok"
         let tags := ["all", (m.splitOn " ").headD ""] ++ (if doc then ["documented"] else []) ++
           (if usesAdvMode then ["advmode"] else []) ++ (if ambig then ["ambig"] else []) ++
+          (if usesDupKeys hj || usesDupKeys vj || usesDupKeys rj || usesDupKeys cj then ["dup-key"] else []) ++
           (if m.startsWith "ok" || m == "err:xref" then ["nt"] else [])
         { model := m, verdict := verdict, tags := tags }
     | _, _, _, _ => { model := "bad-json", verdict := "skip", tags := ["unparsed"] }
   | _ => { model := "bad-op", verdict := "skip" }
 
+/-! ### further ops: bal, name, ticket (modelled); mod / moddoc (accept / reject / crash only, NO model) -/
+def runBal (body impl : String) : Ans :=
+  match body.splitOn "~" with
+  | [g, c] =>
+    match parseJson g, parseJson c with
+    | some gj, some cj =>
+      let m := match decodeGslb gj, decodeCt cj with
+        | some gf, some cf =>
+          (match balInit gf cf with
+           | .ok l =>
+             let items := l.map fun e => s!"{e.1}:{e.2.1}={e.2.2.1}/" ++ (match e.2.2.2 with | some n => toString n | none => "0")
+             "ok " ++ sortedSet items
+           | .err => if (gslbLoad gf).isOk && (ctLoad cf).isOk then "err:init" else "err:load"
+           | .crash => panicMsg)
+        | _, _ => "err:load"
+      -- oracle on the implementation's dump: a sub-cluster with weight > 0 must have backends
+      let open_ := impl.startsWith "ok " && (setOf (impl.drop 3).toString).any fun it =>
+        match (it.splitOn "=").getLast? with
+        | some wn => (match wn.splitOn "/" with
+            | [w, n] => (w.toInt?.getD 0) > 0 && (n.toInt?.getD 0) ≤ 0
+            | _ => false)
+        | none => false
+      let verdict := if impl.startsWith "PANIC" then "FAIL:panic-bal" else if open_ then "FAIL:gslb-subcluster-no-backends" else "ok"
+      { model := m, verdict := verdict, tags := ["bal", (m.splitOn " ").headD ""] ++ (if m.startsWith "ok" || m == "err:init" then ["nt"] else []) }
+    | _, _ => { model := "bad-json", verdict := "skip", tags := ["unparsed"] }
+  | _ => { model := "bad-op", verdict := "skip" }
+
+def runName (body impl : String) : Ans :=
+  match parseJson body with
+  | none => { model := "bad-json", verdict := "skip", tags := ["unparsed"] }
+  | some j =>
+    let m := match decodeName j with
+      | none => "err:decode"
+      | some f => (match nameLoad f with | .ok _ => "ok" | .err => "err:check" | .crash => panicMsg)
+    { model := m, verdict := if impl.startsWith "PANIC" then "FAIL:panic-name" else "ok",
+      tags := ["name", m] ++ (if m == "err:decode" then [] else ["nt"]) }
+
+def runTicket (body impl : String) : Ans :=
+  let decoded := (parseJson body).bind decodeTicket
+  -- a body the driver's reader cannot parse is not JSON for json-iterator either (generator: raw key files)
+  let m := match ticketLoad decoded body.utf8ByteSize with | .ok _ => "ok" | .err => "err" | .crash => panicMsg
+  { model := m, verdict := if impl.startsWith "PANIC" then "FAIL:panic-ticket" else "ok",
+    tags := ["ticket", m, "nt"] ++ (if decoded.isNone then ["raw"] else []) }
+
+def runMod (rest : List String) (impl : String) (doc : Bool) : Ans :=
+  let name := rest.headD ""
+  let verdict :=
+    if impl.startsWith "PANIC" then "FAIL:panic-mod-" ++ name
+    else if impl == "HANG" then "FAIL:hang-mod-" ++ name
+    else if doc && impl != "ok" then "FAIL:doc-rejected-" ++ name
+    else "ok"
+  -- no Lean model of the module rule checks: the "model" column only says that a loader answers ok or err
+  { model := impl, verdict := verdict,
+    tags := ["mod", "mod-" ++ name, impl.take 3 |>.toString] ++ (if doc then ["documented"] else []) }
+
 def run (op impl : String) : Ans :=
   match op.splitOn " " with
   | kind :: rest =>
     let body := " ".intercalate rest
-    if kind == "all" then runAll body impl else runSingle kind body impl
+    if kind == "all" then runAll body impl
+    else if kind == "bal" then runBal body impl
+    else if kind == "name" then runName body impl
+    else if kind == "ticket" then runTicket body impl
+    else if kind == "mod" then runMod rest impl false
+    else if kind == "moddoc" then runMod rest impl true
+    else runSingle kind body impl
   | [] => { model := "bad-op", verdict := "skip" }
 
 end BfeVerif.C13
